@@ -50,6 +50,16 @@ def valueCode (n : Bytes) : Nat :=
   | .ok v => v.number + 1
   | .error _ => 0
 
+/-- the number field of `ATTRIBUTE A <oid> string`: [0] = refused as an invalid OID, else 1 followed by two fields per
+    component, floor(c / 2^32) + 2^31 and c mod 2^32 (the empty token cannot occur as a field: it is listed as refused) -/
+def oidCode (t : Bytes) : List Nat :=
+  if t.isEmpty then [0] else
+  match parseOID Cfg.tree t with
+  | some o => 1 :: o.flatMap fun c => [(c / 2 ^ 32 + 2 ^ 31).toNat, (c % 2 ^ 32).toNat]
+  | none => [0]
+
+def c16Oid : List (List Nat) := Generated.c16OidTokens.map fun t => oidCode (toBytes t)
+
 def c16TypeCode : List Nat := Generated.c16TypeTokens.map fun t => typeCode (toBytes t)
 def c16TypeSize : List Nat := Generated.c16TypeTokens.map fun t => typeSize (toBytes t)
 def c16Flags : List Nat := Generated.c16FlagTokens.map fun t => flagsCode (toBytes t)
@@ -75,6 +85,9 @@ def mustFlagTokens : List Bytes :=
 def mustFormatTokens : List Bytes :=
   ((List.range 10).flatMap fun a => (List.range 10).map fun b =>
     kwFormat ++ [UInt8.ofNat (48 + a), 44, UInt8.ofNat (48 + b)]) ++ ["format=1,1,c", "format=1", "FORMAT=1,1"].map bs
+
+def mustOidTokens : List Bytes :=
+  ["1", "26.1", "0", "01", "+5", "-5", "26.+1", "1.", ".1", "1..2", "9223372036854775807", "9223372036854775808", "a", "1a"].map bs
 
 def mustValueTokens : List Bytes :=
   ["0", "1", "255", "4294967295", "4294967296", "-1", "0x1", "0xff", "0xFF", "0xffffffff", "0x100000000", "0x", "010", "0Xff"].map bs
